@@ -42,6 +42,13 @@ pub fn set_overrides(o: Option<Overrides>) {
 /// Raised (as a panic payload) when the real-time watchdog fires: never a violation.
 pub struct Inconclusive(pub String);
 
+/// No scenario of any check comes near these (the largest run a few hundred thousand iterations).
+pub const MAX_ITERATIONS_PER_WORLD: u64 = 400_000;
+pub const MAX_TRACE_ENTRIES: usize = 2_000_000;
+/// The largest number of loop iterations any one world of this process has run (evidence).
+pub static MAX_SEEN_ITERATIONS: AtomicU64 = AtomicU64::new(0);
+pub const MAX_CONSECUTIVE_MS_STEPS: u64 = 20_000;
+
 #[derive(Clone, Debug)]
 pub struct IfSpec {
     pub name: String,
@@ -528,6 +535,8 @@ pub struct Host {
 struct Pending {
     at: u64,
     seq: u64,
+    /// Times this datagram has waited for unread datagrams of the other family (see `enqueue`).
+    defers: u8,
     host: usize,
     v4: bool,
     pkt: hooks::Ingress,
@@ -552,6 +561,7 @@ pub struct World {
     pub max_runs_per_instant: u64,
     pub livelocks: u64,
     pub total_iterations: u64,
+    ms_steps: u64,
     seed: u64,
 }
 
@@ -609,6 +619,7 @@ impl World {
             max_runs_per_instant: 20_000,
             livelocks: 0,
             total_iterations: 0,
+            ms_steps: 0,
             seed,
         }
     }
@@ -803,6 +814,17 @@ impl World {
         let events_before = self.event_count(h);
         self.hosts[h].iterations += 1;
         self.total_iterations += 1;
+        MAX_SEEN_ITERATIONS.fetch_max(self.total_iterations, Ordering::Relaxed);
+        if self.total_iterations > MAX_ITERATIONS_PER_WORLD || self.trace.entries.len() > MAX_TRACE_ENTRIES {
+            // a daemon that never comes to rest (or a scenario far larger than any that is meant): stop before
+            // the trace eats the machine; the scenario decides nothing
+            std::panic::panic_any(Inconclusive(format!(
+                "runaway scenario: {} loop iterations, {} trace entries at +{} ms (the daemon keeps asking to be woken or keeps sending)",
+                self.total_iterations,
+                self.trace.entries.len(),
+                self.now().saturating_sub(EPOCH)
+            )));
+        }
         ctx.release(1);
         self.wait_parked(h);
         self.collect(h, cmds_before, events_before);
@@ -881,6 +903,7 @@ impl World {
                 next = next.min(p.at.max(now + 1));
             }
             let next = next.max(now + 1).min(t_end.max(now + 1));
+            self.note_step(now, next);
             self.clock.store(next, Ordering::SeqCst);
             for (h, w) in wakes.iter().enumerate() {
                 if let Some(w) = w {
@@ -921,6 +944,7 @@ impl World {
                 next = next.min(p.at.max(now + 1));
             }
             let next = next.max(now + 1).min(t_end.max(now + 1));
+            self.note_step(now, next);
             self.clock.store(next, Ordering::SeqCst);
             for (h, w) in wakes.iter().enumerate() {
                 if let Some(w) = w {
@@ -929,6 +953,25 @@ impl World {
                     }
                 }
             }
+        }
+    }
+
+    /// A daemon that asks to be woken one millisecond later, tens of thousands of times in a row, never comes
+    /// to rest (no scenario steps like that: eager stepping uses 10 or 50 ms): stop, the scenario decides nothing.
+    fn note_step(&mut self, now: u64, next: u64) {
+        let by_daemon = next == now + 1 && !self.pending.iter().any(|p| p.at <= next) && !matches!(self.stepping, Stepping::Eager(1));
+        if by_daemon {
+            self.ms_steps += 1;
+            if self.ms_steps > MAX_CONSECUTIVE_MS_STEPS {
+                std::panic::panic_any(Inconclusive(format!(
+                    "runaway scenario: the daemon asked to be woken 1 ms later {} times in a row (at +{} ms, after {} loop iterations)",
+                    self.ms_steps,
+                    now.saturating_sub(EPOCH),
+                    self.total_iterations
+                )));
+            }
+        } else {
+            self.ms_steps = 0;
         }
     }
 
@@ -955,11 +998,11 @@ impl World {
         }
         due.sort_by_key(|p| (p.at, p.seq));
         for p in due {
-            self.enqueue(p.host, p.v4, p.pkt, p.from_host);
+            self.enqueue(p.host, p.v4, p.pkt, p.from_host, p.defers);
         }
     }
 
-    fn enqueue(&mut self, host: usize, v4: bool, pkt: hooks::Ingress, from_host: Option<usize>) {
+    fn enqueue(&mut self, host: usize, v4: bool, pkt: hooks::Ingress, from_host: Option<usize>, defers: u8) {
         if self.hosts[host].dead {
             return;
         }
@@ -971,10 +1014,11 @@ impl World {
             let g = ctx.lock();
             let other_unread = if v4 { !g.ingress_v6.is_empty() } else { !g.ingress_v4.is_empty() };
             drop(g);
-            if other_unread {
+            // (a daemon that does not read the other family at all - no such socket - must not hold this one up)
+            if other_unread && defers < 3 {
                 self.seq += 1;
                 let at = self.now();
-                self.pending.push(Pending { at, seq: self.seq, host, v4, pkt, from_host });
+                self.pending.push(Pending { at, seq: self.seq, defers: defers + 1, host, v4, pkt, from_host });
                 self.hosts[host].needs_run = true;
                 return;
             }
@@ -1024,12 +1068,13 @@ impl World {
                 0
             };
             if delay == 0 {
-                self.enqueue(host, v4, pkt.clone(), from_host);
+                self.enqueue(host, v4, pkt.clone(), from_host, 0);
             } else {
                 self.seq += 1;
                 self.pending.push(Pending {
                     at: self.now() + delay,
                     seq: self.seq,
+                    defers: 0,
                     host,
                     v4,
                     pkt: pkt.clone(),
@@ -1147,7 +1192,7 @@ impl World {
             src,
             dst,
         };
-        self.enqueue(h, v4, pkt, None);
+        self.enqueue(h, v4, pkt, None, 0);
     }
 
     /// As [`inject`] but subject to the faults of `link` (loss, duplication, delay).
